@@ -248,6 +248,22 @@ def unkStep (s : UnkSt) (t : Tok) (rest : List Tok) : UnkSt × List Tok :=
   | _ =>                                                  -- STRING, URI, S, default (:135-172)
     if s.expEOF then ({ s with wf := false }, rest) else (s, rest)
 
+def isHexDigit (c : Nat) : Bool :=
+  (0x30 ≤ c && c ≤ 0x39) || (0x41 ≤ c && c ≤ 0x46) || (0x61 ≤ c && c ≤ 0x66)
+
+def lowerAscii (c : Nat) : Nat := if 0x41 ≤ c ∧ c ≤ 0x5A then c + 32 else c
+
+/-- `helper.normalize` (`helper.py:44-61`): drop a backslash that stands before a non-hex character
+(`re.sub(r'(\\[^0-9a-fA-F])', …)`, leftmost, non-overlapping), then `lower()` (ASCII fold: assumption) -/
+def normalize : Cps → Cps
+  | [] => []
+  | [c] => [lowerAscii c]
+  | c :: d :: rest =>
+    if c = 0x5C ∧ !isHexDigit d then lowerAscii d :: normalize rest
+    else lowerAscii c :: normalize (d :: rest)
+
+def atCharset : Cps := CssVerif.Proto.cps "@charset"
+
 /-- `rule.cssText = tokens; rule.wellformed` for a `CSSUnknownRule` (`wellformed = bool(atkeyword)`) -/
 def unknownOk (ts : List Tok) : Bool :=
   match ts with
@@ -256,7 +272,8 @@ def unknownOk (ts : List Tok) : Bool :=
     if at_.typ ≠ .atkeyword then false
     else
       let s := parseLoop unkStep {} body
-      s.wf && s.expEOF && s.nesting.isEmpty
+      -- post conditions (:196-216); the last one since fix 10b6992: "@charset" without its space
+      s.wf && s.expEOF && s.nesting.isEmpty && normalize at_.val != atCharset
 
 /-! ## Property (`property.py`) -/
 
